@@ -275,9 +275,31 @@ class MapPatch(Unit):
         from .common import reachable_loops
         from pyvc.values import Unsupported
         keys = reachable_loops(raw(MapPacket, 'apply_to_map'), MapPacket, kind=ast.For, depth=1)
-        if len(keys) != 1:
-            raise Unsupported('contract does not fit the code any more: apply_to_map has %d pixel loops' % len(keys))
+        wkeys = reachable_loops(raw(MapPacket, 'apply_to_map'), MapPacket, kind=ast.While, depth=1)
+        if len(keys) + len(wkeys) != 1:
+            raise Unsupported('contract does not fit the code any more: apply_to_map has %d pixel loops' % (len(keys) + len(wkeys)))
         unit = self
+        if wkeys:
+            # the same blit written as `i = 0; while i < count: ...; i += 1`: the position is the loop-carried integer
+            from pyvc.loops import LoopSpec
+
+            def the_i(fr):
+                names = [k for k, v in fr.locals.items() if k in wspec.live and isinstance(v, (SInt, int)) and not isinstance(v, bool)]
+                if len(names) != 1:
+                    raise Unsupported('pixel loop: expected exactly one loop-carried integer, found %r' % (names,))
+                return names[0]
+
+            def w_inv(I_, fr):
+                i = fr.locals[the_i(fr)]
+                it = i.t if isinstance(i, SInt) else z3.IntVal(i)
+                return And(SBool(unit.view(it)), i >= 0, i <= unit.n)
+
+            def w_havoc(I_, fr):
+                unit.mp.arr = z3.Array(I_.E.fresh_name('pixels@head'), z3.IntSort(), z3.IntSort())
+                fr.locals[the_i(fr)] = I_.E.new_int('i@head', 0, None)
+            wspec = LoopSpec('pixels', w_inv, w_havoc, lambda I_, fr: unit.n - fr.locals[the_i(fr)])
+            I.loop_specs[wkeys[0]] = wspec
+            return
 
         def inv(I_, fr, j):
             jt = j.t if isinstance(j, SInt) else z3.IntVal(j)
@@ -309,6 +331,7 @@ class MapPatch(Unit):
         self.oz = E.new_int('off_z', 0, MW)
         E.assume(self.oz + h <= MW)
         n = h * self.w
+        self.n = n
         self.px = SymArray('patch', n)
         self.mp = SymArray('map', MW * MW)
         self.mp0 = self.mp.arr
